@@ -1855,3 +1855,115 @@ Proof.
   split; [vm_compute; reflexivity|]. split; [vm_compute; reflexivity|]. split; [vm_compute; reflexivity|].
   apply nan_loop_never_ends.
 Qed.
+
+(* the unrestricted statement with the property text's sequence is false *)
+Definition for_num_spec_full : Prop :=
+  forall P var body a b c e st tr en e' st',
+    for_trace P var body (RgStep a b c) e st tr en e' st' ->
+    PrimFloat.eqb c 0 = false ->
+    map visit_val tr = map (fun x => Some (HNum x)) (steps (List.length tr) a b c) /\
+    (en = FeDone -> steps (S (List.length tr)) a b c = steps (List.length tr) a b c).
+
+Definition empty_prog : program := {| p_funcs := []; p_handlers := []; p_stmts := [] |}.
+
+Theorem for_num_spec_full_refuted : ~ for_num_spec_full.
+Proof.
+  intro F.
+  assert (T : exists v e' st', for_trace empty_prog underscore [SBreak] (RgStep f_nan 1 1) []
+                 (init_state None [] false false) [v] FeBreak e' st').
+  { eexists; eexists; eexists. eapply ft_break with (k := 3%nat); reflexivity. }
+  destruct T as (v & e' & st' & T). destruct (F _ _ _ _ _ _ _ _ _ _ _ _ T eq_refl) as [T' _]. clear T; rename T' into T.
+  simpl in T. change (step_live f_nan 1 1) with false in T. discriminate.
+Qed.
+
+(* ====================================================================== *)
+(* 9. The named statements of the property, assembled                      *)
+(* ====================================================================== *)
+
+Theorem break_leaves_innermost_loop :
+  (* a break signal arriving from the body ends the while loop, which reports no signal *)
+  (forall f P e c body st e1 st1,
+     exec_cond f P e c body st = (Ok (Some SigBreak, e1), st1) ->
+     exec_while (S f) P e c body st = (Ok (SigNone, e1), st1)) /\
+  (* the same for every kind of for loop *)
+  (forall f P e var rg body st l rg' st1 e1 st2 e2 st3,
+     for_next rg st = (Ok (Some (l, rg')), st1) -> update_var var l e st1 = (Ok e1, st2) ->
+     exec_block f P e1 body st2 = (Ok (SigBreak, e2), st3) ->
+     exec_for (S f) P e var rg body st = (Ok (SigNone, e2), st3)) /\
+  (* no loop ever reports a break to its surroundings, whatever its body is *)
+  (forall n P e c body st sig e' st',
+     exec_while n P e c body st = (Ok (sig, e'), st') -> sig <> SigBreak) /\
+  (forall n P e var rg body st sig e' st',
+     exec_for n P e var rg body st = (Ok (sig, e'), st') -> sig <> SigBreak) /\
+  (* a statement reports a break only if it is a break nested in if-blocks only *)
+  (forall n P e s st e' st',
+     exec_stmt n P e s st = (Ok (SigBreak, e'), st') -> break_reachable s = true) /\
+  (* on the way out: a statement list stops at the signalling statement, and an
+     if statement reports exactly the signal of the block it ran *)
+  (forall f P e s t st sig e1 st1,
+     exec_stmt f P e s st = (Ok (sig, e1), st1) -> is_ctl sig = true ->
+     exec_stmts (S f) P e (s :: t) st = (Ok (sig, e1), st1)) /\
+  (forall n P e conds els st sig e' st',
+     exec_stmt n P e (SIf conds els) st = (Ok (sig, e'), st') ->
+     (sig = SigNone /\ e' = e) \/
+     exists body k st0 e2, In body (if_bodies conds els) /\
+       exec_block k P ([] :: e) body st0 = (Ok (sig, e2), st') /\ e' = tl e2).
+Proof.
+  repeat apply conj.
+  - exact while_break_ends_loop.
+  - exact for_break_ends_loop.
+  - exact while_consumes_break.
+  - exact for_consumes_break.
+  - exact break_origin.
+  - exact stmts_signal_stops.
+  - exact if_signal_is_block_signal.
+Qed.
+
+Theorem return_leaves_call :
+  (* every enclosing construct passes SigReturn v on unchanged ... *)
+  (forall f P e s t st v e1 st1,
+     exec_stmt f P e s st = (Ok (SigReturn v, e1), st1) ->
+     exec_stmts (S f) P e (s :: t) st = (Ok (SigReturn v, e1), st1)) /\
+  (forall f P e l st st0 sig e' st',
+     tick st = (Ok tt, st0) -> exec_stmts f P e l st0 = (Ok (sig, e'), st') ->
+     exec_block (S f) P e l st = (Ok (sig, e'), st')) /\
+  (forall f P e c body st l st1 st2 sig e2 st',
+     eval_expr f P ([] :: e) c st = (Ok l, st1) -> load l st1 = (Ok (HBool true), st2) ->
+     exec_block f P ([] :: e) body st2 = (Ok (sig, e2), st') ->
+     exec_cond (S f) P e c body st = (Ok (Some sig, tl e2), st')) /\
+  (forall f P els c body t e st sig e1 st1,
+     exec_cond f P e c body st = (Ok (Some sig, e1), st1) ->
+     if_go f P els ((c, body) :: t) e st = (Ok (sig, e1), st1)) /\
+  (forall f P e c body st v e1 st1,
+     exec_cond f P e c body st = (Ok (Some (SigReturn v), e1), st1) ->
+     exec_while (S f) P e c body st = (Ok (SigReturn v, e1), st1)) /\
+  (forall f P e var rg body st l rg' st1 e1 st2 v e2 st3,
+     for_next rg st = (Ok (Some (l, rg')), st1) -> update_var var l e st1 = (Ok e1, st2) ->
+     exec_block f P e1 body st2 = (Ok (SigReturn v, e2), st3) ->
+     exec_for (S f) P e var rg body st = (Ok (SigReturn v, e2), st3)) /\
+  (* ... and the call consumes it: SigReturn v becomes the call's value, the
+     callee environment is dropped *)
+  (forall f P fd vals st fr st1 v e2 st2,
+     call_frame fd vals st = (Ok fr, st1) ->
+     exec_block f P [fr] (fn_body fd) st1 = (Ok (SigReturn v, e2), st2) ->
+     call_user f P fd vals st = (Ok v, st2)) /\
+  (forall f P fd vals st fr st1 sig e2 st2,
+     call_frame fd vals st = (Ok fr, st1) ->
+     exec_block f P [fr] (fn_body fd) st1 = (Ok (sig, e2), st2) ->
+     (forall v, sig <> SigReturn v) ->
+     call_user f P fd vals st = (let* l := alloc HNone in ret (Some l)) st2) /\
+  (* a return signal originates from a return statement under if/while/for blocks *)
+  (forall n P e s st v e' st',
+     exec_stmt n P e s st = (Ok (SigReturn v, e'), st') -> return_reachable s = true).
+Proof.
+  repeat apply conj.
+  - intros. eapply stmts_signal_stops; [eassumption | reflexivity].
+  - exact block_passes_signal.
+  - exact cond_passes_signal.
+  - exact if_go_taken.
+  - exact while_return_passes.
+  - exact for_return_passes.
+  - exact call_user_return.
+  - exact call_user_no_return.
+  - exact return_origin.
+Qed.
